@@ -80,6 +80,8 @@ class Spec:
         #   pvals: True      every parameter value is replaced by a new one;   method: True   the method is set again;
         #   query: True      an extra query (sample) between the changes
         self.late = kw.pop("late", None) or {}
+        # C20: ONE specification fault injected into an otherwise well-posed specification: (kind, position)
+        self.fault = kw.pop("fault", None)
         self.scales = kw.pop("scales", {})                 # 'x': value/list, 'u', 'z', 'v', 'der'
         self.param_values = kw.pop("param_values", "unknown")
         self.solver = kw.pop("solver", "ipopt")
@@ -201,8 +203,15 @@ class Spec:
         # dynamics
         if nx:
             rhs = E(self.ode.name, nx, self.ode.deps).on(self.atom)
+            if self.fault and self.fault[0] == "DT-in-ode":
+                rhs = rhs + ocp.DT                # FAULT: the integrator step length inside a continuous-time ODE
+            if self.fault and self.fault[0] == "foreign-symbol-in-ode":
+                rhs = rhs + ca.MX.sym("alien")    # FAULT: a symbol that does not belong to the OCP
             off = 0
             for i, (x, n) in enumerate(zip(S["x"], self.states)):
+                if self.fault and self.fault[0] == "missing-der" and self.fault[1] % len(self.states) == i:
+                    off += n
+                    continue                      # FAULT: this state gets no derivative / update rule
                 if self.discrete:
                     ocp.set_next(x, rhs[off:off + n])
                 else:
@@ -217,6 +226,9 @@ class Spec:
                 cols = {"": 1, "control": self.N, "control+": self.N + 1}[kind]
                 val = unknown("pval_%s%d" % (kind.replace("+", "plus"), i), p.shape[0], p.shape[1] * cols)
                 self.pvals[(kind, i)] = val
+                self._n_par = getattr(self, "_n_par", 0) + 1
+                if self.fault and self.fault[0] == "missing-pval" and self.fault[1] % max(1, self.n_params()) == self._n_par - 1:
+                    continue                      # FAULT: this parameter never gets a value
                 ocp.set_value(p, val)
         for key in ("T", "t0"):
             if "p_" + key in S:
@@ -258,6 +270,35 @@ class Spec:
             else:
                 raise ValueError(kind)
             decl() if oi < n_early_o else self._late_ops.append(decl)
+        if self.fault:
+            kind_, pos_ = self.fault
+            X0 = S["x"][pos_ % len(S["x"])]
+            if kind_ == "unknown-grid":
+                ocp.subject_to(X0 <= 1, grid="nonsense")
+            elif kind_ == "foreign-symbol-in-constraint":
+                ocp.subject_to(X0 + ca.MX.sym("alien", X0.shape[0]) <= 1)
+            elif kind_ == "foreign-symbol-in-objective":
+                ocp.add_objective(ocp.at_tf(X0[0]) * ca.MX.sym("alien"))
+            elif kind_ == "signal-objective":
+                ocp.add_objective(X0[0])
+            elif kind_ == "vector-objective":
+                ocp.add_objective(ocp.at_tf(ca.vertcat(X0[0], X0[0])))
+            elif kind_ == "set_value-on-state":
+                ocp.set_value(X0, 1)
+            elif kind_ == "set_initial-on-parameter":
+                ps = [q for k_ in ("", "control", "control+") for q in S[("p", k_)]]
+                ocp.set_initial(ps[pos_ % len(ps)], 1)
+            elif kind_ == "set_initial-on-unknown":
+                ocp.set_initial(ca.MX.sym("alien"), 1)
+            elif kind_ == "constant-false":
+                ocp.subject_to(ocp.at_t0(ocp.t) - self._t0_number() <= -1) if self._t0_number() is not None else ocp.subject_to(ca.MX(2) <= 1)
+            elif kind_ == "parameter-only-constraint":
+                ps = [q for k_ in ("",) for q in S[("p", k_)]]
+                ocp.subject_to(ps[pos_ % len(ps)][0] <= 0)
+            elif kind_ == "roots-with-shooting":
+                ocp.subject_to(X0 <= 1, grid="integrator_roots")
+            elif kind_ == "der-of-control":
+                ocp.subject_to(ocp.der(S["u"][pos_ % len(S["u"])]) <= 1)
         if self.late.get("pvals"):
             def new_values():
                 for kind in ("", "control", "control+"):
@@ -284,6 +325,12 @@ class Spec:
             ocp.solver(self.solver)
         ocp.method(self.make_method())
         return ocp
+
+    def n_params(self):
+        return sum(len(self.params.get(k, [])) for k in ("", "control", "control+"))
+
+    def _t0_number(self):
+        return self.t0[1] if self.t0[0] == "fixed" else None
 
     def bound_to(self, stage, **over):
         """the same specification seen through another stage object (a clone of the template)"""
